@@ -37,6 +37,8 @@ func checkC14(c *Ctx, r *Report) {
 	renderMargins(c, r)
 	checkMarginNonNegative(c, r)
 	checkQRMarginHint(c, r)
+	checkForwardOrder(c, r, 10)
+	checkEncodeHintsUsed(c, r, 4)
 	checkWriterStateless(c, r)
 	checkWholeOps(c, r) // SetRegion's own bit arithmetic (same obligations as under C16)
 	r.Note("not decided: that sampling block centres returns the module matrix is a consequence of these terms plus SetRegion's contract")
@@ -752,3 +754,143 @@ func checkQRMarginHint(c *Ctx, r *Report) {
 	}
 	reportFold(r, c, "R-MARGINHINT", key, fd.Pos(), bad)
 }
+
+// M-FWDORDER: thin wrappers hand their parameters on in the positions the callee names them
+func checkForwardOrder(c *Ctx, r *Report, min int) {
+	r.Rule("M-FWDORDER", "a function whose whole body is one call of another function or method of the module (the *WithoutHint / convenience-constructor style) passes each of its own parameters in the position where the callee declares a parameter of the same name, whenever the callee has one: EncodeWithoutHint(contents, format, width, height) calls Encode(contents, format, width, height, nil), not with width and height exchanged; one obligation per such wrapper that shares at least two parameter names with its callee", min)
+	for _, p := range c.PkgList {
+		if !strings.HasPrefix(p.PkgPath, modPath) || strings.HasSuffix(p.PkgPath, "/testutil") {
+			continue
+		}
+		for _, f := range p.Syntax {
+			for _, d := range f.Decls {
+				fd, ok := d.(*ast.FuncDecl)
+				if !ok || fd.Body == nil || len(fd.Body.List) != 1 {
+					continue
+				}
+				var call *ast.CallExpr
+				switch st := fd.Body.List[0].(type) {
+				case *ast.ReturnStmt:
+					if len(st.Results) == 1 {
+						call, _ = ast.Unparen(st.Results[0]).(*ast.CallExpr)
+					}
+				case *ast.ExprStmt:
+					call, _ = ast.Unparen(st.X).(*ast.CallExpr)
+				}
+				if call == nil {
+					continue
+				}
+				callee, ok := typeutil.Callee(p.TypesInfo, call).(*types.Func)
+				if !ok || callee.Pkg() == nil || !strings.HasPrefix(callee.Pkg().Path(), modPath) {
+					continue
+				}
+				sig := callee.Type().(*types.Signature)
+				own := map[string]bool{}
+				for _, o := range paramObjs(p, fd) {
+					own[o.Name()] = true
+				}
+				pos := map[string]int{}
+				shared := 0
+				for i := 0; i < sig.Params().Len(); i++ {
+					n := sig.Params().At(i).Name()
+					if n != "" && n != "_" {
+						pos[n] = i
+						if own[n] {
+							shared++
+						}
+					}
+				}
+				if shared < 2 || sig.Variadic() {
+					continue
+				}
+				obj := p.TypesInfo.Defs[fd.Name]
+				key := shortObj(obj)
+				r.Analysed(key)
+				bad := ""
+				ownObj := map[types.Object]bool{}
+				for _, po := range paramObjs(p, fd) {
+					ownObj[po] = true
+				}
+				// the callee's parameter named X must not receive another of the wrapper's parameters that has a
+				// named position of its own (two parameters exchanged); constants, nil and derived values are free
+				for j := 0; j < sig.Params().Len() && j < len(call.Args); j++ {
+					want := sig.Params().At(j).Name()
+					if !own[want] {
+						continue
+					}
+					o := identObj(p, call.Args[j])
+					if o == nil || !ownObj[o] || o.Name() == want {
+						continue
+					}
+					if _, has := pos[o.Name()]; has {
+						bad = fmt.Sprintf("%s receives the wrapper's %s where it takes %s (argument %d)", callee.Name(), o.Name(), want, j+1)
+						break
+					}
+				}
+				r.Check(bad == "", "M-FWDORDER", key, c.pos(fd.Pos()), bad)
+			}
+		}
+	}
+}
+
+// M-HINTUSED: no writer entry point receives encode hints and ignores them
+func checkEncodeHintsUsed(c *Ctx, r *Report, min int) {
+	r.Rule("M-HINTUSED", "every Encode method of the module that receives the encode hints (a parameter of type map[EncodeHintType]interface{}; the implementations of gozxing.Writer and the shared 1-D front end) reads them or hands them on - it does not drop them on the way to the code that honours MARGIN, the error-correction level, the character set and the other options; a function that by design takes no notice of its hints is a frozen row with the reason; one obligation per such function", min)
+	for _, p := range c.PkgList {
+		if !strings.HasPrefix(p.PkgPath, modPath) || strings.HasSuffix(p.PkgPath, "/testutil") {
+			continue
+		}
+		for _, f := range p.Syntax {
+			for _, d := range f.Decls {
+				fd, ok := d.(*ast.FuncDecl)
+				if !ok || fd.Body == nil || fd.Recv == nil || fd.Name.Name != "Encode" {
+					continue // the Writer entry points; the per-symbology row encoders take the hints for Code 128's sake only
+				}
+				var hintObjs []types.Object
+				unnamed := false
+				for _, fl := range fd.Type.Params.List {
+					t := p.TypesInfo.TypeOf(fl.Type)
+					m, isMap := t.Underlying().(*types.Map)
+					if !isMap {
+						continue
+					}
+					n, isNamed := m.Key().(*types.Named)
+					if !isNamed || n.Obj().Name() != "EncodeHintType" {
+						continue
+					}
+					if len(fl.Names) == 0 {
+						unnamed = true
+					}
+					for _, nm := range fl.Names {
+						if nm.Name == "_" {
+							unnamed = true
+						} else {
+							hintObjs = append(hintObjs, p.TypesInfo.Defs[nm])
+						}
+					}
+				}
+				if len(hintObjs) == 0 && !unnamed {
+					continue
+				}
+				key := shortObj(p.TypesInfo.Defs[fd.Name])
+				r.Analysed(key)
+				used := false
+				for _, o := range hintObjs {
+					if usesIdent(p, fd.Body, o) {
+						used = true
+					}
+				}
+				if used {
+					r.Pass("M-HINTUSED", key, c.pos(fd.Pos()), "")
+				} else if why, ok := frozenHintIgnorers[key]; ok {
+					r.Pass("M-HINTUSED", key, c.pos(fd.Pos()), "frozen: "+why)
+				} else {
+					r.Fail("M-HINTUSED", key, c.pos(fd.Pos()), "violation", "the encode hints are received and never looked at or handed on: options such as MARGIN are silently ignored on this path")
+				}
+			}
+		}
+	}
+}
+
+// functions that take the hints only to satisfy an interface and have no option to honour
+var frozenHintIgnorers = map[string]string{}
